@@ -128,6 +128,8 @@ func main() {
 		os.Exit(cmdRun(os.Args[2:]))
 	case "replay":
 		os.Exit(cmdReplay(os.Args[2:]))
+	case "thresholds":
+		os.Exit(cmdThresholds(os.Args[2:]))
 	}
 	fmt.Fprintln(os.Stderr, "unknown command")
 	os.Exit(2)
@@ -797,3 +799,8 @@ func cmdReplay(args []string) int {
 }
 
 var _ = ssa.InstantiateGenerics
+
+func execOutput(name string, args ...string) (string, error) {
+	out, err := exec.Command(name, args...).CombinedOutput()
+	return string(out), err
+}
